@@ -54,7 +54,10 @@ monitor, reproduced stand-alone):
   (D3) ``suggest-answers-without-raising[dehb-own-sampler,history-with-failed-trials]`` -- after ALL trials of a rung
        failed, get_top_list promotes failed slots whose trial id is None and DEHB._mutation / _de_mutation raise
        KeyError(None) in the next suggest (exhibited deterministically by failing trials 9, 10, 11 = base rung of
-       bracket 1; seed-dependently by the 15%-failure histories).
+       bracket 1; seed-dependently by the 15%-failure histories).  The same crash occurs WITHOUT any failing trial in
+       the nearly used-up finite DEHB scenarios: when all 50 retries are rejected, _suggest reports its slot as failed
+       (NaN), and once a whole rung consists of such slots the next suggest raises KeyError(None) -> these scenarios
+       report "suggest raised" under this clause as well.
 
 Bounded stand-in, never counted as proved.
 """
